@@ -680,3 +680,40 @@ def _first_error(out):
     m = re.search(r"(File [^\n]*\n)?Error:.*", out, flags=re.S)
     txt = m.group(0) if m else out[-600:]
     return " ".join(txt.split())[:600]
+
+
+def run_forked(fn, timeout=10):
+    """Run fn() in a forked child (compiled kernels that loop forever cannot
+    be interrupted by signals).  Returns ("ok", value) | ("timeout", None) |
+    ("error", message)."""
+    import pickle
+    import select
+    import signal
+    r, w = os.pipe()
+    pid = os.fork()
+    if pid == 0:
+        try:
+            os.close(r)
+            try:
+                out = ("ok", fn())
+            except BaseException as e:       # noqa
+                out = ("error", f"{type(e).__name__}: {e}")
+            with os.fdopen(w, "wb") as f:
+                pickle.dump(out, f)
+        finally:
+            os._exit(0)
+    os.close(w)
+    try:
+        ready, _, _ = select.select([r], [], [], timeout)
+        if not ready:
+            os.kill(pid, signal.SIGKILL)
+            os.waitpid(pid, 0)
+            return ("timeout", None)
+        with os.fdopen(r, "rb") as f:
+            r = None
+            data = f.read()
+        os.waitpid(pid, 0)
+        return pickle.loads(data) if data else ("error", "child died")
+    finally:
+        if r is not None:
+            os.close(r)
